@@ -436,7 +436,7 @@ def interface_histories(chk, workdir):
         return raw
 
     variants = [("base", variant()), ("levels [2, 5]", variant(domain__output_levels=[2, 5])), ("levels [5, 2]", variant(domain__output_levels=[5, 2])), ("full output", variant(domain__full_output=True)),
-                ("nx 10", variant(domain__nx=10)), ("halo 0", variant(domain__halo=0.0)), ("halo 31 (as many pad columns as halo 20, one more pad row)", variant(domain__halo=31.0)), ("halo 44 (one more pad column than halo 31, as many pad rows)", variant(domain__halo=44.0)), ("no halo given", variant(domain__halo=None)), ("modes (6, 4)", variant(domain__modes=[6, 4])),
+                ("nx 10", variant(domain__nx=10)), ("halo 0", variant(domain__halo=0.0)), ("halo 40 written as an integer", variant(domain__halo=40)), ("domain and halo written as integers", variant(domain__xmax=160, domain__ymax=90, domain__halo=60)), ("halo 31 (as many pad columns as halo 20, one more pad row)", variant(domain__halo=31.0)), ("halo 44 (one more pad column than halo 31, as many pad rows)", variant(domain__halo=44.0)), ("no halo given", variant(domain__halo=None)), ("modes (6, 4)", variant(domain__modes=[6, 4])),
                 ("analytic", variant(solver__analytic=True, solver__closure="CONSTANT")), ("single precision", variant(solver__precision="single")), ("another stability", variant(met__mol=80.0))]
     d = os.path.join(workdir, "iface")
     shutil.rmtree(d, ignore_errors=True)
@@ -454,7 +454,10 @@ def interface_histories(chk, workdir):
             cfg_off = parse_config_dict(off)
             refs[name] = run_bldfm_multitower(cfg_off)
         order = [variants[i] for i in np.random.default_rng(seed() + 11).permutation(len(variants))]
+        stored_after_first = None
         for rnd in (1, 2):
+            if rnd == 2:
+                stored_after_first = {f: (os.path.getsize(f), os.stat(f).st_mtime_ns) for f in glob.glob(os.path.join(d, ".bldfm_cache", "*.npz"))}
             for name, raw in order:
                 raw = _copy.deepcopy(raw)
                 if raw["domain"].get("halo", 0) is None:
@@ -475,6 +478,12 @@ def interface_histories(chk, workdir):
                 if bad:
                     chk.violation("configuration '%s' run through the series driver with caching on (pass %d over one cache directory, after %s) differs from the run with caching off at %s"
                                   % (name, rnd, [o[0] for o in order[: order.index((name, [r_ for n_, r_ in variants if n_ == name][0]))]] if rnd == 1 else "the whole first pass", bad[:3]), sc, klass={"check": "interface_transparent", "variant": name})
+        # the second pass repeats every request of the first over the same directory: it is served from it - nothing is stored again
+        stored_now = {f: (os.path.getsize(f), os.stat(f).st_mtime_ns) for f in glob.glob(os.path.join(d, ".bldfm_cache", "*.npz"))}
+        if stored_after_first is not None and stored_after_first and stored_now != stored_after_first:
+            new_files = sorted(set(stored_now) - set(stored_after_first))
+            chk.violation("the second pass over one cache directory repeats the requests of the first, yet %d entries were written or rewritten (%d new files): identical requests were solved again instead of being served from the cache"
+                          % (sum(1 for f in stored_now if stored_after_first.get(f) != stored_now[f]), len(new_files)), {"kind": "interface_history", "pass": 2, "order": [o[0] for o in order]}, klass={"check": "interface_effective"})
     finally:
         os.chdir(here)
     return n
